@@ -175,6 +175,54 @@ Theorem C03_tensor_without_instruction_is_returned_unchanged :
 Proof. exact transform_graph_untouched. Qed.
 Print Assumptions C03_tensor_without_instruction_is_returned_unchanged.
 
+(* the positive clause over whole runs: a tensor whose instruction list starts
+   with QUANTIZE_TENSOR or ADD_DEQUANTIZE (parameters p) is returned with the
+   same name, shape and buffer, the dtype of p's bit width and p's annotation
+   (qres), whatever else the run does — provided the rest of its own list
+   does not re-quantize it in place with other parameters and no other list of
+   its subgraph names it (one instruction list per tensor: names are unique) *)
+Theorem C03_quantized_in_place_tensor_gets_selected_dtype :
+  forall m pre ti0 post m' k g t x i0 rest p,
+    nth_opt (m_subgraphs m) k = Some g -> tensor_at g t = Some x -> 0 <= t ->
+    ids_ok (pre ++ ti0 :: post) ->
+    never_names k t pre -> never_names k t post ->
+    ti_sg ti0 = Z.of_nat k -> ti_insts ti0 = i0 :: rest ->
+    i_tensor i0 = t -> (i_trans i0 = Tr_QUANTIZE_TENSOR \/ i_trans i0 = Tr_ADD_DEQUANTIZE) ->
+    i_params i0 = Some p -> agree p t rest ->
+    transform_graph m (pre ++ ti0 :: post) = Ok m' ->
+    exists g' x', nth_opt (m_subgraphs m') k = Some g' /\ tensor_at g' t = Some x' /\ qres p x x'.
+Proof. exact transform_graph_quantized_in_place. Qed.
+Print Assumptions C03_quantized_in_place_tensor_gets_selected_dtype.
+
+(* non-vacuity of the two whole-run clauses: x --op--> y; y's list is
+   [QUANTIZE_TENSOR p; ADD_DEQUANTIZE p for the graph output]: y comes back
+   int8 with p's annotation, x comes back untouched *)
+Definition wr_t (r : Z) : tensor :=
+  {| t_root := r; t_sfx := []; t_shape := 0; t_ty := TY_FLOAT32; t_buf := 0; t_q := None |}.
+Definition wr_m : model :=
+  {| m_subgraphs := [{| sg_tensors := [wr_t 0; wr_t 1];
+                        sg_ops := [{| o_code := 0; o_ins := [0]; o_outs := [1]; o_uid := 0 |}];
+                        sg_inputs := [0]; sg_outputs := [1] |}];
+     m_buffers := [BEmpty]; m_opcodes := [0]; m_sigs := [] |}.
+Definition wr_p : qparam := {| qp_id := 5; qp_uniform := true; qp_bits := 8; qp_has_data := false |}.
+Definition wr_tis : list tinsts :=
+  [{| ti_name := (1, []); ti_sg := 0;
+      ti_insts := [{| i_trans := Tr_QUANTIZE_TENSOR; i_tensor := 1; i_producer := 0; i_consumers := [-1];
+                      i_params := Some wr_p |};
+                   {| i_trans := Tr_ADD_DEQUANTIZE; i_tensor := 1; i_producer := 0; i_consumers := [-1];
+                      i_params := Some wr_p |}] |}].
+Example C03_whole_run_nonvacuous :
+  match transform_graph wr_m wr_tis with
+  | Ok m' => option_map (fun g => map (fun t => (t_ty t, t_q t)) (sg_tensors g)) (nth_opt (m_subgraphs m') 0)
+             = Some [(TY_FLOAT32, None); (TY_INT8, Some 5); (TY_FLOAT32, None)]
+  | Err _ => False end /\
+  ids_ok ([] ++ wr_tis) /\ never_names 0 0 wr_tis.
+Proof.
+  split; [vm_compute; reflexivity|]. split.
+  - repeat constructor; cbn; lia.
+  - intros ti i [<-|[]] _ [<-|[<-|[]]]; cbn; lia.
+Qed.
+
 Example C03_nonvacuous :
   In ex_static policy_all_configs /\ In ex_wo policy_all_configs /\
   expected_trans ex_static true false = [Tr_ADD_QUANTIZE] /\
